@@ -536,6 +536,47 @@ func run(c *runner.Ctx) {
 			tryVal(strings.Repeat(unit, n/len(unit)+1)[:n])
 		}
 	}
+	// fixed-size byte arrays (and byte slices) as the value, reached with and without addressability
+	c.Space("byte-arrays")
+	type arrBox struct {
+		A [4]byte
+		S []byte
+		J [2]byte
+	}
+	for _, r := range valueRules {
+		if !c.Take() {
+			continue
+		}
+		arr := [4]byte{'a', 'b', 'c', 'd'}
+		js := [2]byte{'{', '}'}
+		bx := arrBox{A: arr, S: []byte("abcd"), J: js}
+		rm := valid.RM{"A": r, "S": r, "J": r}
+		calls := map[string]func(){
+			"Var([4]byte)":              func() { _ = valid.Var(arr, r) },
+			"Var(&[4]byte)":             func() { _ = valid.Var(&arr, r) },
+			"Var([2]byte{'{','}'})":     func() { _ = valid.Var(js, r) },
+			"Var([]byte)":               func() { _ = valid.Var([]byte("abcd"), r) },
+			"Struct(by value)":          func() { _ = valid.Struct(bx, rm) },
+			"Struct(by pointer)":        func() { _ = valid.Struct(&bx, rm) },
+			"Struct([1]T)":              func() { _ = valid.Struct([1]arrBox{bx}, rm) },
+			"Struct(map[string]T)":      func() { _ = valid.Struct(map[string]arrBox{"k": bx}, rm) },
+			"Map(map[string][4]byte)":   func() { _ = valid.Map(map[string][4]byte{"k": arr}, valid.RM{"k": r}) },
+			"Map([]map[string][2]byte)": func() { _ = valid.Map([]map[string][2]byte{{"k": js}}, valid.RM{"k": r}) },
+		}
+		for name, f := range calls {
+			pan, msg, site := runner.Guard(f)
+			c.AddTransitions(1)
+			if pan {
+				k := r
+				if i := strings.IndexAny(k, "=|"); i > 0 {
+					k = k[:i]
+				}
+				c.Outcome("panic")
+				c.Violation(fmt.Sprintf("panic@%s/byte-array/%s", site, k), map[string]interface{}{"rule": r, "call": name, "panic": msg})
+			}
+		}
+		c.Done(true, 0)
+	}
 	// long values under size rules whose bounds are negative, zero or extreme (the clause may abbreviate the input)
 	sizeRules := []string{"le=-1", "lt=-3", "to=-5~-1", "oto=-5~-1|m", "ge=-1", "gt=-300", "le=0", "to=0~0", "eq=-1", "noeq=-256", "le=9223372036854775807", "to=-9223372036854775808~-1", "to=300~100", "oto=257~256"}
 	for _, unit := range []string{"a", "中", "\xff", "'", "😀"} {
